@@ -43,6 +43,30 @@ BAD = "nope"
 BAD_ID = 999
 
 
+# rules of GRAMMAR a case can ask a user class for (case["classes"]); while a model is under construction the
+# attributes of user-class objects (for the root rule: _tx_filename, _tx_model_repository, the in-construction
+# mark) live in a store managed by the parser that builds the model, not on the object
+USER_RULES = ["Model", "Import", "Elem", "Ref"]
+
+
+def make_user_classes(names, via="list"):
+    """fresh user classes (textX keeps per-class state on them, so never shared between metamodels);
+    `via`: handed over as a list or through a callable (metamodel_from_str(classes=...))"""
+    made = {}
+    for nm in names:
+        if nm not in USER_RULES:
+            raise ValueError(nm)
+
+        def __init__(self, **kw):
+            for k, v in kw.items():
+                setattr(self, k, v)
+
+        made[nm] = type(nm, (), {"__init__": __init__})
+    if via == "callable":
+        return lambda rule_name: made.get(rule_name)
+    return [made[nm] for nm in names]
+
+
 class ObjBoom(Exception):
     pass
 
@@ -144,6 +168,8 @@ def build_mm(case):
         kwargs["global_repository"] = True
     if builtin_repo is not None:
         kwargs["builtin_models"] = builtin_repo
+    if case.get("classes"):
+        kwargs["classes"] = make_user_classes(case["classes"], case.get("classes_via", "list"))
     mm = metamodel_from_str(GRAMMAR_RREL if prov == "rrel" else GRAMMAR, **kwargs)
     builtin_models = []
     for names in case["builtin"]:
@@ -930,6 +956,20 @@ class Prop(Check):
             c = copy.deepcopy(case)
             c["builtin"] = []
             yield c
+        if case.get("classes"):
+            c = copy.deepcopy(case)
+            c.pop("classes")
+            c.pop("classes_via", None)
+            yield c
+            if len(case["classes"]) > 1:
+                for nm in case["classes"]:
+                    c = copy.deepcopy(case)
+                    c["classes"] = [x for x in case["classes"] if x != nm]
+                    yield c
+            if case.get("classes_via"):
+                c = copy.deepcopy(case)
+                c.pop("classes_via")
+                yield c
         for k, s in enumerate(case["steps"]):
             if step_kind(s) in ("strfile", "str", "preload"):
                 c = copy.deepcopy(case)
@@ -944,7 +984,8 @@ class Prop(Check):
                         yield c
 
     def sample_view(self, case, obs):
-        return {"case": {"provider": case["provider"], "glob": case["glob"], "files": case["files"],
+        return {"case": {"provider": case["provider"], "glob": case["glob"], "classes": case.get("classes", []),
+                         "files": case["files"],
                          "steps": [{"main": s["main"], "kind": step_kind(s)} for s in case["steps"]]},
                 "impl": [{"res": s["res"], "reads": s["reads"]} for s in obs.get("steps", [])] if isinstance(obs, dict) else obs}
 
@@ -953,12 +994,14 @@ class Prop(Check):
 
     def extra_evidence(self, cases, obs, outs):
         dist = {"providers": {}, "glob": 0, "steps": 0, "ok": 0, "fail": {}, "reads": 0, "cached_hits": 0,
-                "kinds": {}, "first_kind_glob": {}}
+                "kinds": {}, "first_kind_glob": {}, "classes": {}}
         for c, o in zip(cases, obs):
             if not isinstance(o, dict) or "steps" not in o:
                 continue
             dist["providers"][c["provider"]] = dist["providers"].get(c["provider"], 0) + 1
             dist["glob"] += 1 if c["glob"] else 0
+            ck = ",".join(c.get("classes") or []) or "-"
+            dist["classes"][ck] = dist["classes"].get(ck, 0) + 1
             for st in c["steps"]:
                 dist["kinds"][step_kind(st)] = dist["kinds"].get(step_kind(st), 0) + 1
             if c["glob"] and c["steps"]:
